@@ -180,7 +180,74 @@ func c17IsIf(q *gojq.Query) *gojq.If {
 	if q == nil || q.Left != nil || q.Term == nil || q.Term.Type != gojq.TermTypeIf || len(q.Term.SuffixList) > 0 {
 		return nil
 	}
-	return q.Term.If
+	return c17NormIf(q.Term.If)
+}
+
+// c17StrictNeg recognises a condition spelled as the exact negation of a simpler one and returns
+// that one: `x | not`, `a != b` (not a == b), `a >= b` (not a < b), `a <= b` (not a > b). jq's
+// ordering is total, so these are equivalences, not approximations.
+func c17StrictNeg(q *gojq.Query) (*gojq.Query, bool) {
+	q = c17Unparen(q)
+	if q == nil || q.Left == nil || q.Right == nil || len(q.FuncDefs) > 0 {
+		return q, false
+	}
+	flip := func(x *gojq.Query, neg bool) (*gojq.Query, bool) {
+		y, n := c17StrictNeg(x)
+		return y, n != neg
+	}
+	switch q.Op {
+	case gojq.OpPipe:
+		if fw.JQIsCall(q.Right, "not", 0) != nil {
+			return flip(q.Left, true)
+		}
+		// a | (b | not)  ==  (a | b) | not  for the single-output conditions used in if
+		if r, neg := c17StrictNeg(q.Right); neg {
+			cp := *q
+			cp.Right = r
+			return &cp, true
+		}
+	case gojq.OpNe:
+		cp := *q
+		cp.Op = gojq.OpEq
+		return &cp, true
+	case gojq.OpGe:
+		cp := *q
+		cp.Op = gojq.OpLt
+		return &cp, true
+	case gojq.OpLe:
+		cp := *q
+		cp.Op = gojq.OpGt
+		return &cp, true
+	}
+	return q, false
+}
+
+var c17NormIfCache = map[*gojq.If]*gojq.If{}
+
+// c17NormIf gives a two-armed if a canonical orientation: `if c | not then B else A end` (and the
+// other negated spellings) is presented as `if c then A else B end`. Chains with elif are left alone.
+func c17NormIf(i *gojq.If) *gojq.If {
+	if i == nil || len(i.Elif) > 0 {
+		return i
+	}
+	if n, ok := c17NormIfCache[i]; ok {
+		return n
+	}
+	out := i
+	if pos, neg := c17StrictNeg(i.Cond); neg {
+		cp := *i
+		cp.Cond = pos
+		cp.Then, cp.Else = i.Else, i.Then
+		if cp.Then == nil {
+			cp.Then = &gojq.Query{Term: &gojq.Term{Type: gojq.TermTypeIdentity}}
+		}
+		if c17IsIdentity(cp.Else) {
+			cp.Else = nil
+		}
+		out = &cp
+	}
+	c17NormIfCache[i] = out
+	return out
 }
 
 func c17IsNull(q *gojq.Query) bool {
